@@ -10,6 +10,9 @@ from checks import c04
 KEYS = {"aaaaaaaa-0000-0000-0000-000000000001": "1a" * 32, "bbbbbbbb-0000-0000-0000-000000000002": "2b" * 32,
         "cccccccc-0000-0000-0000-000000000003": "3c" * 32}
 K1, K2, K3 = list(KEYS)
+# a latched key whose secret is not hex text (a damaged key file read back): nothing can be signed with it
+KBAD = "dddddddd-0000-0000-0000-00000000000d"
+KEYS_ALL = dict(KEYS, **{KBAD: "not-hex-" + "z" * 56})
 ROUTES = ["proxy", "goalstate", "sharedconfig", "imds"]
 
 
@@ -124,7 +127,7 @@ def set_key(stack, guid):
     if guid is None:
         stack.ctl("key none")
     else:
-        stack.ctl(f"key {hx(guid)} {hx(KEYS[guid])}")
+        stack.ctl(f"key {hx(guid)} {hx(KEYS_ALL[guid])}")
 
 
 def run(chk):
@@ -186,6 +189,26 @@ def run(chk):
                             chk.violation("authorization header announces a key id that did not produce the MAC",
                                           {"route": route, "schedule": f"{keeper_op} during the signer's GetKey message #{nth}", "announced": g,
                                            "mac_made_with": prod, "request": r["start"].decode("latin-1")})
+        # ---- (B'') the latched key cannot be used (its secret is not hex) and is replaced while a request is on its way: whatever
+        # is sent announces the key that made its MAC (or goes out without a signature)
+        for route in ROUTES:
+            for nth in (1, 2, 3):
+                set_key(stack, KBAD)
+                time.sleep(0.03)
+                stack.ctl(f"khook {nth} {hx(K2)} {hx(KEYS[K2])}")
+                tok += 1
+                recs = do_sign(stack, callers, route, "n%d" % tok)
+                stack.ctl("khook off")
+                time.sleep(0.05)
+                chk.case(nontrivial_key=("placed-unusable-key", route, nth))
+                chk.count("placed_schedules_unusable_key")
+                for r in recs:
+                    g, okmac, prod = verify(r)
+                    chk.count("signed" if g is not None else "unsigned")
+                    if g is not None and not okmac:
+                        chk.violation("authorization header announces a key id that did not produce the MAC",
+                                      {"route": route, "schedule": f"latched key with a non-hex secret, rotation during GetKey message #{nth}", "announced": g,
+                                       "mac_made_with": prod, "request": r["start"].decode("latin-1")})
         # ---- (B') the same placements while the host REFUSES the agent's own requests (401/403/500/503): whatever the agent sends in
         # answer to a refusal (a second attempt, if it makes one) announces the key that made its MAC, too
         saved = dict(stack.hosts.default_plan)
